@@ -149,6 +149,23 @@ func c20Run(c *fw.Ctx, i int) {
 			}
 			defer rc.Close()
 			sdp, controls := c07Sdp(src)
+			if rr.Intn(4) == 0 {
+				// an odd but well-formed dialogue: SETUP requests whose URI names no track of the SDP,
+				// UDP and TCP transports, then the connection just goes away
+				u := "rtsp://" + s.RtspAddr() + "/live/" + name
+				if r, err := rc.Request("ANNOUNCE", u, []string{"Content-Type: application/sdp"}, sdp, 2*time.Second); err == nil && r.Status == 200 {
+					st.inc("rtsp_odd_setup")
+					for q := 0; q < 1+rr.Intn(2); q++ {
+						tr := "Transport: RTP/AVP/TCP;unicast;interleaved=0-1;mode=record"
+						if rr.Intn(3) != 0 {
+							tr = fmt.Sprintf("Transport: RTP/AVP/UDP;unicast;client_port=%d-%d;mode=record", 40000+rr.Intn(10000)*2, 40001+rr.Intn(10000)*2)
+						}
+						rc.Request("SETUP", u+"/"+[]string{"streamid=7", "nosuchtrack", "streamid=", ""}[rr.Intn(4)], []string{tr}, nil, time.Second)
+					}
+					time.Sleep(time.Duration(rr.Intn(30)) * time.Millisecond)
+				}
+				return
+			}
 			if rc.Announce("rtsp://"+s.RtspAddr()+"/live/"+name, sdp, len(controls), controls, udp, 2*time.Second) != nil {
 				return
 			}
@@ -318,6 +335,28 @@ func c20Run(c *fw.Ctx, i int) {
 			}
 		})
 	}
+	// ---- HLS pollers and a blacklist writer: every /hls/ request consults the ip blacklist (which
+	// also expires entries), each request on a goroutine of its own
+	for k := 0; k < 3; k++ {
+		actor(fmt.Sprintf("hls-poll-%d", k), func(rr *rand.Rand) {
+			if atomic.LoadInt32(&disposed) == 1 {
+				return
+			}
+			name := names[rr.Intn(len(names))]
+			for q := 0; q < 10; q++ {
+				srv.HttpGet(s.HttpAddr(), "/hls/"+name+".m3u8", 2*time.Second)
+				st.inc("hls_poll")
+			}
+		})
+	}
+	actor("blacklist-writer", func(rr *rand.Rand) {
+		if atomic.LoadInt32(&disposed) == 1 {
+			return
+		}
+		b, _ := json.Marshal(map[string]interface{}{"ip": fmt.Sprintf("10.2.%d.%d", rr.Intn(255), rr.Intn(255)), "duration_sec": 1})
+		srv.HttpPostJson(s.ApiAddr(), "/api/ctrl/add_ip_blacklist", string(b), 5*time.Second)
+		st.inc("api_blacklist")
+	})
 	// ---- API
 	for k := 0; k < 4; k++ {
 		actor(fmt.Sprintf("api-%d", k), func(rr *rand.Rand) {
@@ -406,6 +445,20 @@ func c20Run(c *fw.Ctx, i int) {
 	case <-time.After(20 * time.Second):
 		c.Violate("deadlock/dispose", "ServerManager.Dispose / RunLoop did not return within 20 s of being asked to stop under load\n"+goroutineSummary(), nil)
 	}
+	// after the server has been disposed and every actor has closed its connections nothing holds a
+	// lal lock for long: a goroutine that sits in a lal frame waiting for a mutex in two dumps 2.5 s
+	// apart is stuck for good (its session's teardown never completes).
+	if stuck := stuckOnMutex(); len(stuck) > 0 {
+		time.Sleep(2500 * time.Millisecond)
+		again := stuckOnMutex()
+		for id, stack := range stuck {
+			if _, ok := again[id]; ok {
+				c.Violate("deadlock/goroutine-stuck-on-mutex", "a goroutine is still waiting for a lal mutex after the server was disposed and all peers are gone:\n"+stack, nil)
+				break
+			}
+		}
+	}
+	c.Count("stuck_goroutine_scans", 1)
 	if n := atomic.LoadInt32(&maxApiFail); n >= 3 {
 		c.Violate("deadlock/api-unresponsive", fmt.Sprintf("%d consecutive HTTP-API calls timed out (5 s each) while the server was running\n%s", n, goroutineSummary()), nil)
 	}
@@ -416,6 +469,31 @@ func c20Run(c *fw.Ctx, i int) {
 	}
 	c.Eval(tot)
 	c.Sample(map[string]interface{}{"procs": procs, "operations": tot, "notifications": s.Notify.Len()})
+}
+
+// stuckOnMutex: goroutines blocked in sync.(*Mutex).Lock / RWMutex whose stack has a lal or naza
+// frame; key = goroutine id, value = its stack.
+func stuckOnMutex() map[string]string {
+	out := map[string]string{}
+	for _, g := range strings.Split(goroutineDump(), "\n\n") {
+		nl := strings.IndexByte(g, '\n')
+		if nl < 0 || !strings.HasPrefix(g, "goroutine ") {
+			continue
+		}
+		head := g[:nl]
+		if !strings.Contains(head, "sync.Mutex.Lock") && !strings.Contains(head, "sync.RWMutex") && !strings.Contains(head, "semacquire") {
+			continue
+		}
+		if !strings.Contains(g, "q191201771/lal/pkg/") && !strings.Contains(g, "q191201771/naza/") {
+			continue
+		}
+		if !strings.Contains(g, "sync.(*Mutex).Lock") && !strings.Contains(g, "sync.(*RWMutex)") {
+			continue
+		}
+		id := strings.Fields(head)[1]
+		out[id] = g
+	}
+	return out
 }
 
 // ---- race-report parsing (driver side)
@@ -469,7 +547,7 @@ func init() {
 		Batches:            func(string) int { return 16 },
 		CaseTimeout:        func(tier string) time.Duration { return 3 * time.Minute },
 		TimeoutIsViolation: true,
-		Rule: "worker built with -race (checkptr on); one lal server per process with every output enabled (HLS with sub-session hash key, periodic group debug log every second, FLV/TS recording, RTSP, WS-RTSP, relay push to a stub target that refuses every third connection, API); GOMAXPROCS ∈ {1,2,4,16}; liveness sweep every 2–4 s. For 12 s (thorough 40 s) concurrent actors churn on three stream names: 3 RTMP publishers, RTSP publishers over TCP and UDP, a customize publisher, start_rtp_pub + PS over UDP/TCP (incl. a second TCP connection), 4 subscriber actors (RTMP, HTTP-FLV, WS-FLV, HTTP-TS, RTSP TCP/UDP, HLS playlist+segments, consumers that never read), 4 API actors (stat group / all_group / lal_info, kick of listed pub/sub/pull ids, start/stop_relay_pull against an origin that refuses / closes / serves, add_ip_blacklist, web UI); Dispose at a seeded instant 0.2–1.7 s before the actors stop. Oracles: every `WARNING: DATA RACE` block in the child's log whose accesses touch lal or naza frames is a violation (signature = unordered pair of innermost lal/naza functions); `fatal error: concurrent map…`, `send on closed channel`, `all goroutines are asleep` are crashes; ≥3 consecutive API calls timing out (5 s each) while the server runs, Dispose not returning within 20 s, or a case exceeding its watchdog are deadlock violations with the goroutine dump. cell = GOMAXPROCS.",
+		Rule: "worker built with -race (checkptr on); one lal server per process with every output enabled (HLS with sub-session hash key, periodic group debug log every second, FLV/TS recording, RTSP, WS-RTSP, relay push to a stub target that refuses every third connection, API); GOMAXPROCS ∈ {1,2,4,16}; liveness sweep every 2–4 s. For 12 s (thorough 40 s) concurrent actors churn on three stream names: 3 RTMP publishers, RTSP publishers over TCP and UDP (one in four sends SETUP requests naming no track of its SDP and goes away), a customize publisher, start_rtp_pub + PS over UDP/TCP (incl. a second TCP connection), 4 subscriber actors (RTMP, HTTP-FLV, WS-FLV, HTTP-TS, RTSP TCP/UDP, HLS playlist+segments, consumers that never read), 3 HLS pollers and a blacklist writer with 1 s entries (every /hls/ request consults and expires the ip blacklist), 4 API actors (stat group / all_group / lal_info, kick of listed pub/sub/pull ids, start/stop_relay_pull against an origin that refuses / closes / serves, add_ip_blacklist, web UI); Dispose at a seeded instant 0.2–1.7 s before the actors stop. Oracles: every `WARNING: DATA RACE` block in the child's log whose accesses touch lal or naza frames is a violation (signature = unordered pair of innermost lal/naza functions); `fatal error: concurrent map…`, `send on closed channel`, `all goroutines are asleep` are crashes; ≥3 consecutive API calls timing out (5 s each) while the server runs, Dispose not returning within 20 s, or a case exceeding its watchdog are deadlock violations with the goroutine dump; so is a goroutine that, after Dispose returned and all peers are gone, waits for a lal mutex in two dumps 2.5 s apart (a teardown that never completes). cell = GOMAXPROCS.",
 		Assumptions: []string{"GORACE=halt_on_error=0 exitcode=0 so that one report does not hide the rest", "a race between two harness-only frames is a harness fault, not a finding"},
 		MinCells: 2,
 		Run:      c20Run,
